@@ -21,7 +21,7 @@ EXPLANATION = (
     'the ValueSpecBase.apply pipeline (frozen, missing, None tests dominate; '
     '_validate on every path after _apply) and boundary operators of the '
     'range/size validators; (e) unknown keys are rejected before any store.')
-FLOORS = {'C03.a': 11, 'C03.b': 5, 'C03.c': 1, 'C03.d': 4, 'C03.e': 1, 'C03.f': 10, 'C03.g': 1, 'C03.h': 2, 'C03.i': 2, 'C03.j': 2}
+FLOORS = {'C03.a': 11, 'C03.b': 5, 'C03.c': 1, 'C03.d': 4, 'C03.e': 1, 'C03.f': 10, 'C03.g': 1, 'C03.h': 2, 'C03.i': 2, 'C03.j': 2, 'C03.k': 1}
 FILES = c08.FILES + ['pyglove/core/typing/value_specs.py',
                      'pyglove/core/typing/class_schema.py']
 
@@ -782,6 +782,45 @@ def rule_j(ctx):
     raise AnalysisError('custom_apply of List/Dict not found')
 
 
+def rule_k(ctx):
+  """A typed Dict loses a key only through the write primitive (which formalizes
+  the MISSING marker against the field: a required key raises) or through clear
+  (validated up front, C03.c#bulk).  Any other raw removal is unreachable once a
+  value spec is bound (popitem refuses typed dicts)."""
+  idx = ctx.index
+  c = idx.cls(S.DICT)
+  n = 0
+  for name, f in sorted(c.methods.items()):
+    if name in (S.PRIMITIVE, 'clear', '__init__'):
+      continue
+    g = C.cfg_of(f.node)
+    raw = [k for k in g.nodes if k.ast is not None and any(
+        (c08._raw_of_call(idx, f, cl) or '') in ('dict.popitem', 'dict.pop', 'dict.__delitem__', 'dict.clear')
+        for cl in k.calls())]
+    if not raw:
+      continue
+    n += 1
+    # assume a spec is bound: the no-spec outcome of every spec test is blocked
+    blocked = set()
+    for k in g.nodes:
+      if k.kind != 'test':
+        continue
+      t = A.unparse(k.ast)
+      if t in ('self._value_spec', 'self.value_spec', 'self._value_spec is not None', 'self.value_spec is not None'):
+        blocked |= {(k.id, m.id, l) for m, l in k.succ if l == 'false'}
+      elif t in ('self._value_spec is None', 'self.value_spec is None', 'not self._value_spec'):
+        blocked |= {(k.id, m.id, l) for m, l in k.succ if l == 'true'}
+    seen, _ = g.reach(g.entry, blocked_edges=blocked, follow_exc=False)
+    hit = [k for k in raw if k.id in seen]
+    ctx.ob('C03.k', f.fq + '#typed-removal', not hit,
+           'a raw removal from Dict storage outside the write primitive is unreachable once a value spec is bound '
+           '(a required key cannot be removed behind the schema\'s back)', f.loc,
+           f'line {hit[0].lineno if hit else 0}: the raw removal is reachable on a typed Dict: a required field can be '
+           f'removed without any check')
+  if n < 1:
+    raise AnalysisError('no raw removal outside the Dict primitive found (popitem vanished?)')
+
+
 def run(ctx):
   ctx.consult(*FILES)
   rule_f(ctx)
@@ -793,5 +832,6 @@ def run(ctx):
   rule_g(ctx)
   rule_h(ctx)
   rule_j(ctx)
+  rule_k(ctx)
   S.typecheck_flag_obligations(ctx, 'C03.i', ['pyglove/core/symbolic/list.py', 'pyglove/core/symbolic/dict.py'], floor=2)
   ctx.assume('acceptance semantics of each spec (what apply accepts) is not decided')
